@@ -107,6 +107,31 @@ def jobs_lay(prop, table):
     return f
 
 
+def trc(name, prop, flavour, table, features=None, shards=2):
+    j = dict(name=name, bin="tracerec", flavour=flavour, args=["--prop", prop, "--table", table], shards=shards)
+    if features:
+        j["features"] = features
+        j["only_bins"] = ["tracerec"]
+        j["name"] = f"{name}[{features}]"
+    return j
+
+
+def jobs_c15(tier, seed):
+    return [trc("shapes", "C15", "dbg", "shapes"), trc("shapes", "C15", "rel", "shapes"), trc("shapes", "C15", "asan", "shapes")]
+
+
+def pregen_c15(tier, seed, generate):
+    generate(seed, 60, 60 if tier == Q else 940)
+
+
+def jobs_c16(tier, seed):
+    js = [trc("impls", "C16", "dbg", "impls"), trc("impls", "C16", "rel", "impls"), trc("impls", "C16", "asan", "impls")]
+    keys = ["none", "nostd"] if tier == Q else [f"c{b}{s}" for b in range(32) for s in "sn"]
+    for k in keys:
+        js.append(trc("impls", "C16", "dbg", "impls", features=k, shards=1))
+    return js
+
+
 COMMON_ASSUME = [
     "the shadow model mirrors every mutator op it issues (validated by lock-step traversal after every callback)",
     "destructor and release events are observed at the Drop / global-allocator boundary, not inside the collector",
@@ -231,5 +256,20 @@ CHECKS = {
         rule="seeded conversion chains (length 1-8) over sized, trait-object, array->slice, slice, str targets using erase, erase_kind, downgrade/upgrade, unsize!, as_thin/as_fat, raw round trips, stash/fetch, allocated in a seeded phase; identity and value at every step, survival with only the converted pointer rooted, destructed exactly once after; ZstCache<1..64> x ZST alignments 1..64 (+ non-ZSTs); non-trivial = chain of >= 2 steps",
         floors={"chains": 1_000, "zst_cache_checks": 100},
         assumptions=COMMON_ASSUME + ["the 'no conjured values' half is decided by the conjuring probes"],
+    ),
+    "C15": dict(
+        level="exploration",
+        jobs=jobs_c15,
+        pregen=pregen_c15,
+        rule="generated derive(Collect) corpus: 60 fixed + 60 seeded (940 in thorough) types: named/tuple/unit structs, enums with unit/tuple/named variants, generics with default and overridden bounds, explicit gc_lifetime, unsafe_drop, type-level require_static, require_static fields (of a type that is not Collect) at random positions, up to 12 fields of nested container types; per variant a recording Trace compares the reported (pointer, strength) multiset with every pointer placed, NEEDS_TRACE with the disjunction computed by the generator, plus an end-to-end survival round with the value as arena root; rejections by the probe corpus; non-trivial = the variant holds at least one pointer",
+        floors={"trace_comparisons": 100, "field_positions": 300},
+        assumptions=COMMON_ASSUME + ["generator-computed expectations (gen/shapes.py) are the reference"],
+    ),
+    "C16": dict(
+        level="exploration",
+        jobs=jobs_c16,
+        rule="table over every provided Collect impl x pointer kind (Gc / GcWeak) x type-parameter position (keys, values, Ok/Err, each of 16 tuple positions, header vs element) x sizes {0,1,2,7,33} (wrapped VecDeque, spilled SmallVec, SlotMap with a removed slot); recorded multiset = inserted multiset with the right strength; NEEDS_TRACE for pointer-bearing and pointer-free instantiations; end-to-end survival of one strong and one weak target per container; feature sets {all five optional, none, no-std} (all 64 combinations in thorough); non-trivial = case holds at least one pointer",
+        floors={"trace_comparisons": 1_500, "needs_trace_checks": 150},
+        assumptions=COMMON_ASSUME,
     ),
 }
